@@ -11,7 +11,7 @@ func init() {
 		DesignRef:   "DESIGN.md section 3, C20",
 		Runs: []run{
 			{Test: "TestC20_Seq", Quick: 3000, Thorough: 240000},
-			{Test: "TestC20_Conc", Quick: 150, Thorough: 9000, Race: true, Shards: 8},
+			{Test: "TestC20_Conc", Quick: 600, Thorough: 9000, Race: true, Shards: 8},
 		},
 	})
 }
